@@ -571,6 +571,18 @@ def _surrogate_free(defs: Defs, node, e: ast.AST, depth: int = 0) -> bool:
                 return sf(recv) and all(sf(a) for a in e.args)
         if (dotted(e.func) or "") in ("str", "repr") and e.args:
             return _int_like(e.args[0]) or sf(e.args[0])
+        # a helper of the package: surrogate-free if every value it returns is (its
+        # parameters are not assumed to be)
+        if _PROJ7[0] is not None and depth < 6:
+            try:
+                callee = Resolver(_PROJ7[0]).resolve(node.func, e)
+            except Exception:  # noqa: BLE001
+                callee = None
+            if callee is not None and callee.node.name != "__init__":
+                g2 = build_cfg(_PROJ7[0], callee)
+                d2 = Defs(g2)
+                rets = [x for x in g2.nodes if x.kind == "stmt" and isinstance(x.ast, ast.Return)]
+                return bool(rets) and all(r.ast.value is not None and _surrogate_free(d2, r, r.ast.value, depth + 1) for r in rets)
         return False
     if isinstance(e, ast.Name):
         ds = defs.at(node, e.id)
@@ -700,9 +712,23 @@ def rule_w8(chk: Check) -> None:
                     continue  # annotations
                 n += 1
                 blocked = set()
+                # the value may have been tested in a caller before it was passed down: follow
+                # the parameter binding through the enclosing activations
+                from ..flow import _bindings
+
+                levels = {node.stack: name}
+                stk, nm_ = node.stack, name
+                while stk:
+                    enter = g.nodes[stk[-1]]
+                    arg = _bindings(enter).get(nm_) if nm_ in (enter.extra.get("callee").params if enter.extra.get("callee") else ()) else None
+                    if not isinstance(arg, ast.Name):
+                        break
+                    stk, nm_ = stk[:-1], arg.id
+                    levels[stk] = nm_
                 for t in g.nodes:
-                    if t.kind != "test" or t.ast is None or t.stack != node.stack:
+                    if t.kind != "test" or t.ast is None or t.stack not in levels:
                         continue
+                    name = levels[t.stack]
                     a, flip = t.ast, False
                     while isinstance(a, ast.UnaryOp) and isinstance(a.op, ast.Not):
                         a, flip = a.operand, not flip
